@@ -9,10 +9,14 @@ LEAN_TARGETS = ['TexSoupProofs.Properties.C02', 'TexSoupProofs.Properties.C02Str
 THEOREMS = ['TexSoup.C02.' + n for n in (
     'tree_mirrors_document', 'parse_complete', 'construct_read_back', 'zero_arg_operator_absorbs_nothing',
     'special_command_reads_args_in_special_mode', 'special_mode_is_inherited', 'begin_end_in_special_are_commands',
-    'item_owns_up_to_stop', 'document_parses', 'document_parses_both', 'document_roundtrip')]
+    'item_owns_up_to_stop', 'document_parses', 'document_parses_both', 'document_roundtrip', 'cert_sound')]
 PARTIAL = ['the Lean grammar (TexSoupModel/Grammar.lean) and the Python document generator (gen_doc.py) are two '
            'descriptions of "documented constructs": that the generator only emits documents of the proved grammar is '
-           'not itself proved; the three-way comparison AST / implementation / model in this check ties them',
+           'not itself proved; the three-way comparison AST / implementation / model in this check ties them, and '
+           'every generated document and every corpus document of a run is CERTIFIED individually: the driver '
+           'rebuilds a grammar document from its tokens and tree (untrusted search) and evaluates the hypotheses of '
+           'theorem C02.cert_sound / C02.document_parses on it with the compiled definitions, so the theorem '
+           'demonstrably applies to that input (counts: cert_* statistics and the rule text of the run)',
            'restrictions of the proved grammar: environment names are single text tokens; fixed-signature commands '
            'take no continuation arguments']
 TRUSTED = ['harness/gen_doc.py (grammar of documented constructs, expected tree of a generated document, frame '
@@ -73,7 +77,7 @@ def _oracle(src, ast, extra, parsed):
 def _jobs(ctx, tag, total, model):
     per = ctx.pick(250, 500)
     return [{'seed': '%s/%d/%s/%d' % (ID, ctx.seed, tag, k), 'n': n, 'gen': _gen, 'oracle': _oracle,
-             'nontrivial': _nontrivial, 'model': model, 'tols': (0,), 'depth': ctx.pick(6, 12)}
+             'nontrivial': _nontrivial, 'model': model, 'cert': model, 'tols': (0,), 'depth': ctx.pick(6, 12)}
             for k, n in enumerate(L.split(total, per))]
 
 
@@ -102,9 +106,15 @@ def correspondence(ctx):
     # return treeD d, positions included, in both tolerance modes (theorem C02.document_parses on the code side)
     import lib_gram
     lib_gram.run(ctx, r, ctx.pick(120000, 1500000), ctx.pick(3, 4))
+    # certificates: every generated document (in the workers) and the repository corpus are looked up in the proved
+    # grammar by the model driver, and the hypotheses of C02.cert_sound / document_parses evaluated on the result
+    import gen
+    lib_gram.run_corpus(r, gen.corpus())
     r.rule = ('`parse` (tolerance 0, with the document\'s skip_envs) compared textually on ' + RULE_DOCS % ctx.pick(6, 12) +
               '; plus well-formed, self-tokenizing documents drawn from the Lean grammar by rejection sampling, '
-              'implementation tree == treeD d for tolerance 0 and 1')
+              'implementation tree == treeD d for tolerance 0 and 1; ' + lib_gram.cert_sentence(r.stats) +
+              '; a document whose certificate hypotheses hold while treeD d differs from the model parse would '
+              'contradict theorem C02.document_parses and is a failure (certificate-contradiction)')
     return r
 
 
